@@ -99,25 +99,190 @@ def exhaustive_failures(ctx, nscen):
     return done
 
 
+# ---------------------------------------------------------------------------------------------------------------------
+# caller-supplied listing store (`cache_odb`): where the directories of an expanded request are looked up
+#
+# transfer(..., cache_odb=X) makes status() and _do_transfer() read the listings of the requested directories from X
+# instead of the source: index.fetch passes the destination cache itself, a push may pass the local cache, a caller may
+# pass any third store.  X may or may not hold the listing of a requested directory, and the source may have lost files
+# a listing names.  Whatever the library does then (refuse with FileNotFoundError, or deliver what it can) the
+# destination stays closed at every point, a directory is never reported transferred without its files, a withheld
+# directory is reported failed, and a fault-free retry completes what is available.  Oracle-only (the Lean model's
+# request has no listing-store parameter: it reads listings from the total function L).
+
+
+def gen_cache_scenario(rng):
+    uni = stores.Universe(rng, ntrees=rng.randrange(1, 4))
+    files, trees = list(uni.files), list(uni.trees)
+    # the source holds every directory object but has lost some of the files (missing on both sides unless dest has them)
+    psrc = rng.choice([0.6, 0.8, 0.95])
+    src = list(trees) + [f for f in files if rng.random() < psrc]
+    dest = set()
+    for t in trees:  # closed initial contents
+        if rng.random() < 0.2:
+            dest.add(t)
+            dest.update(uni.listing(t))
+    for f in files:
+        if rng.random() < 0.2:
+            dest.add(f)
+    shallow = rng.random() < 0.25
+    req_dirs = [t for t in trees if rng.random() < 0.8] or [rng.choice(trees)]
+    req = list(req_dirs)
+    if shallow:
+        for t in req_dirs:  # closed request: every directory together with its files
+            req += [f for f in uni.listing(t) if f not in req]
+    req += [f for f in files if rng.random() < 0.2 and f not in req]
+    rng.shuffle(req)
+    cache = rng.choice(["none", "src", "dest", "dest", "other", "other", "other"])
+    # a third store knows the listings of some of the directories (and, irrelevantly, some files)
+    other = [t for t in trees if rng.random() < 0.6] + [f for f in files if rng.random() < 0.3] if cache == "other" else []
+    cand = sorted(uni.closure(req) - dest)
+    pf = rng.choice([0.0, 0.0, 0.2, 0.5])
+    fail = [o for o in cand if rng.random() < pf]
+    return {
+        "family": "cache_odb",
+        "files": {k: v.decode() for k, v in uni.files.items()},
+        "trees": {d: {"/".join(k): v for k, v in e.items()} for d, e in uni.trees.items()},
+        "src": src, "dest": sorted(dest), "req": req, "shallow": shallow, "fail": fail, "cache": cache, "other": other,
+        "index": rng.random() < 0.2, "src_local": rng.random() < 0.5, "dest_local": rng.random() < 0.5,
+        "cache_local": rng.random() < 0.5, "req_form": rng.choice(["set", "list", "generator"]),
+    }, uni
+
+
+def check_cache(ctx, sc, uni):
+    import os
+
+    from dvc_data.hashfile.transfer import transfer
+
+    from .util import safe_call
+
+    root = ctx.mkdtemp()
+    src = stores.make_odb(os.path.join(root, "src"), local=sc["src_local"])
+    dest = stores.make_odb(os.path.join(root, "dest"), local=sc["dest_local"])
+    stores.populate(src, uni, sc["src"])
+    stores.populate(dest, uni, sc["dest"])
+    other = None
+    if sc["cache"] == "other":
+        other = stores.make_odb(os.path.join(root, "other"), local=sc["cache_local"])
+        stores.populate(other, uni, sc["other"])
+    cache_odb = {"none": None, "src": src, "dest": dest, "other": other}[sc["cache"]]
+    lookup = (cache_odb or src).path  # where the destination-side query expands the requested directories
+    idx = stores.new_index(os.path.join(root, "tmp")) if sc["index"] else None
+    closure_bad = []
+
+    def audit(oid):
+        bad = stores.closed_violations(dest.path)
+        if bad:
+            closure_bad.append({"after_upload_of": oid, "dangling": bad[:3]})
+
+    def one_round(fail):
+        known = set(stores.listing_of(lookup))
+        faults = stores.Faults(dest, fail, on_event=audit)
+        ids = [stores.hi(o) for o in sc["req"]]
+
+        def f():
+            req = {"set": set(ids), "list": ids, "generator": (h for h in ids)}[sc["req_form"]]
+            with faults.active():
+                return transfer(src, dest, req, dest_index=idx, cache_odb=cache_odb, shallow=sc["shallow"])
+
+        kind, res = safe_call(f, expected=(FileNotFoundError,))
+        audit("<end>")
+        obs = {"events": [list(e) for e in faults.events], "dest": stores.listing_of(dest.path),
+               "unlisted": sorted(d for d in sc["req"] if d.endswith(".dir") and d not in known)}
+        if kind == "ok":
+            obs["transferred"], obs["failed"] = stores.vals(res.transferred), stores.vals(res.failed)
+        else:
+            obs["err"] = res
+        return obs
+
+    before = set(stores.listing_of(dest.path))
+    src_before = stores.listing_of(src.path)
+    try:
+        obs1 = one_round(sc["fail"])
+        bad1 = list(closure_bad)
+        obs2 = one_round(())  # clean retry
+        bad2 = closure_bad[len(bad1):]
+    finally:
+        if idx is not None:
+            idx.close()
+    case = dict(sc)
+    req_dirs = [o for o in sc["req"] if o.endswith(".dir")]
+    lost = [d for d in req_dirs if any(f not in sc["src"] and f not in before for f in uni.listing(d))]
+    ctx.case(case, nontrivial=bool(lost) or bool(sc["fail"]))
+    ctx.count("cache_odb=%s" % sc["cache"])
+    ctx.count("cache_odb:shallow=%s" % sc["shallow"])
+    ctx.count("cache_odb:listing_absent_from_cache=%s" % bool(obs1["unlisted"]))
+    ctx.count("cache_odb:dir_with_file_lost_by_source=%s" % bool(lost))
+    ctx.count("cache_odb:outcome=%s" % obs1.get("err", "result"))
+    ctx.oracle(not bad1, case, {"why": "destination not closed at some point of a transfer with a caller-supplied listing store",
+                                "first": bad1[:2], "events": obs1["events"], "round1": {k: obs1.get(k) for k in ("transferred", "failed", "err")}})
+    ctx.oracle(not bad2, case, {"why": "destination not closed during the retry (caller-supplied listing store)", "first": bad2[:2]})
+    ctx.oracle(stores.listing_of(src.path) == src_before, case, {"why": "transfer changed the source"})
+    for n, obs in ((1, obs1), (2, obs2)):
+        have = set(obs["dest"])
+        if "err" in obs:
+            # refusing is fine exactly when an expanded request names a directory whose listing is not where the caller said
+            ctx.oracle(obs["err"] == "FileNotFoundError" and not sc["shallow"] and bool(obs["unlisted"]), case,
+                       {"why": "transfer raised although every requested listing was available", "round": n, "err": obs["err"],
+                        "unlisted": obs["unlisted"]})
+            continue
+        for o in obs["transferred"]:
+            short = [o] if o not in have else [f for f in (uni.listing(o) if o.endswith(".dir") else []) if f not in have]
+            ctx.oracle(not short, case, {"why": "reported transferred, yet not (completely) in the destination", "round": n, "object": o,
+                                         "absent": short})
+        ctx.oracle(not (set(obs["transferred"]) & set(obs["failed"])), case, {"why": "object both transferred and failed", "round": n})
+        for d in req_dirs:
+            if d in sc["src"] and d not in before and d not in have:
+                undelivered = [f for f in uni.listing(d) if f not in have]
+                ctx.oracle(bool(undelivered) or (n == 1 and d in sc["fail"]), case,
+                           {"why": "directory object withheld although all its files are present", "round": n, "dir": d})
+                ctx.oracle(d in obs["failed"], case, {"why": "withheld directory object not reported as failed", "round": n, "dir": d,
+                                                      "undelivered": undelivered, "failed": obs["failed"]})
+    if "err" not in obs2:
+        d2, avail = set(obs2["dest"]), set(sc["src"]) | before
+        for o in wanted(sc, uni):
+            if o.endswith(".dir"):
+                if o in avail and all(f in avail for f in uni.listing(o)):
+                    ctx.oracle(o in d2, case, {"why": "clean retry did not deliver a complete directory", "dir": o, "dest": sorted(d2)})
+            elif o in avail:
+                ctx.oracle(o in d2, case, {"why": "clean retry did not deliver an available file", "file": o})
+
+
+def run_cache_cases(ctx, n):
+    for _ in range(n):
+        sc, uni = gen_cache_scenario(ctx.rng)
+        check_cache(ctx, sc, uni)
+
+
 def run(ctx):
     ctx.rule = (
         "closed requests over 1-4 directory objects sharing/repeating files, initial closed destination contents, random subsets "
         "of failing uploads, shallow (dirs listed with files) or expanded, with/without a real remote index, verify with corrupt "
         "sources, both store classes; every scenario is followed by a fault-free retry; the destination is audited for closure "
         "after every single upload event (the state a kill at that point leaves). non-trivial = a directory requested, >=1 failing "
-        "upload and a file shared by two directories; distinct = sha256 of the scenario"
+        "upload and a file shared by two directories; distinct = sha256 of the scenario. Appended family (oracle-only): transfers with a "
+        "caller-supplied listing store cache_odb (none / the source / the destination itself, as index.fetch passes / a third store "
+        "knowing a random subset of the listings), mostly expanded requests (shallow=False), a source that has lost listed files, "
+        "failing uploads, optional remote index, then a clean retry: closure after every upload, no directory reported transferred "
+        "without its files, withheld directories reported failed, FileNotFoundError accepted only when a requested listing is absent "
+        "from the listing store; non-trivial there = a failing upload or a requested directory with a file lost on both sides"
     )
     ctx.assumptions = ["one upload is atomic (C15 covers local stores)", "uploads inside one batch are independent events in arbitrary order"]
     run_cases(ctx, ctx.n(220, 2500))
     if ctx.tier == "thorough":
         exhaustive_failures(ctx, 12)
+    run_cache_cases(ctx, ctx.n(110, 1200))
 
 
 def search(ctx):
     run_cases(ctx, 1500)
     exhaustive_failures(ctx, 6)
+    run_cache_cases(ctx, 600)
 
 
 def replay(ctx, payload):
     sc = payload.get("case") or payload.get("diverging_case")
+    if sc.get("family") == "cache_odb":
+        check_cache(ctx, sc, xfer.rebuild(sc))
+        return
     check(ctx, sc, xfer.rebuild(sc))
